@@ -79,6 +79,14 @@ def check_case(ctx, quals, cf, cb, base, seq, cases_q, cases_n, impl):
         ctx.failures.append(Failure("C13/trim3-not-idempotent", "3' quality trimming of an already trimmed read removes more bases "
                                     "(so the first run did not remove the BWA-defined end)",
                                     dict(qualities=qs, cutoff_front=-1000, cutoff_back=cb, base=base, twice=True), list(again), [0, stop1]))
+    # C13.trim5_idempotent: the same at the 5' end (3' cutoff -1000: only the 5' side acts)
+    r5 = tuple(impl["qti"](qs, cf, -1000, base))
+    if r5 != (0, 0):
+        rest = qs[r5[0]:]
+        again5 = tuple(impl["qti"](rest, cf, -1000, base))
+        if again5 != (0, len(rest)):
+            ctx.failures.append(Failure("C13/trim5-not-idempotent", "5' quality trimming of an already trimmed read removes more bases",
+                                        dict(qualities=qs, cutoff_front=cf, cutoff_back=-1000, base=base, twice=True), list(again5), [0, len(rest)]))
     # modifier: counter and slice
     rec = SequenceRecord("r", seq, qs)
     qt = impl["QualityTrimmer"](cf, cb, base)
